@@ -5,6 +5,7 @@
 
 use crate::case::*;
 use crate::expr::Val;
+#[cfg(feature = "sim")]
 use crate::sched::{SchedRecord, SchedSpec, SimScheduler};
 use expression_engine::verif_hooks::DescriptorManager;
 use expression_engine::{
@@ -17,6 +18,7 @@ use std::sync::{Arc, Mutex as StdMutex};
 
 pub const INJECTED_PANIC: &str = "INJECTED-PANIC";
 
+#[cfg(feature = "sim")]
 #[derive(Clone, PartialEq, Eq, Debug)]
 pub enum Verdict {
     Completed,
@@ -28,6 +30,7 @@ pub enum Verdict {
     Crash(String),
 }
 
+#[cfg(feature = "sim")]
 #[derive(Clone, Debug)]
 pub struct RunOutput {
     pub log: Vec<Ev>,
@@ -35,6 +38,7 @@ pub struct RunOutput {
     pub verdict: Verdict,
 }
 
+#[cfg(feature = "sim")]
 impl RunOutput {
     pub fn result_of(&self, op: OpId) -> Option<&Res> {
         self.log.iter().find_map(|e| match e {
@@ -96,8 +100,34 @@ struct Env {
     shared: StdMutex<SharedAsts>,
 }
 
+#[cfg(feature = "sim")]
 fn me() -> usize {
     usize::from(shuttle::current::me())
+}
+#[cfg(feature = "sim")]
+use shuttle::thread::spawn as spawn_task;
+
+// std backend (fidelity runs against the real std::sync::Mutex / once_cell build): task ids are
+// assigned in spawn order exactly as the simulator does (main = 0)
+#[cfg(not(feature = "sim"))]
+thread_local! { static TASK_ID: std::cell::Cell<usize> = std::cell::Cell::new(0); }
+#[cfg(not(feature = "sim"))]
+static NEXT_TASK: std::sync::atomic::AtomicUsize = std::sync::atomic::AtomicUsize::new(1);
+#[cfg(not(feature = "sim"))]
+fn me() -> usize {
+    TASK_ID.with(|t| t.get())
+}
+#[cfg(not(feature = "sim"))]
+fn spawn_task<F, T>(f: F) -> std::thread::JoinHandle<T>
+where
+    F: FnOnce() -> T + Send + 'static,
+    T: Send + 'static,
+{
+    let id = NEXT_TASK.fetch_add(1, Ordering::SeqCst);
+    std::thread::spawn(move || {
+        TASK_ID.with(|t| t.set(id));
+        f()
+    })
 }
 
 fn mk_err() -> expression_engine::Result<Value> {
@@ -369,7 +399,7 @@ impl Env {
             Op::OnThread { ops } => {
                 let env = self.clone();
                 let ops = ops.clone();
-                let h = shuttle::thread::spawn(move || ops.iter().map(|o| env.guarded(o)).collect::<Vec<_>>());
+                let h = spawn_task(move || ops.iter().map(|o| env.guarded(o)).collect::<Vec<_>>());
                 match h.join() {
                     Ok(rs) => Res::Many(rs),
                     Err(p) => Res::P(payload_string(p)),
@@ -417,7 +447,7 @@ impl Env {
         for (t, ops) in case.threads.iter().enumerate() {
             let env = self.clone();
             let ops = ops.clone();
-            hs.push(shuttle::thread::spawn(move || {
+            hs.push(spawn_task(move || {
                 for (i, op) in ops.iter().enumerate() {
                     env.do_op(OpId::Thr(t, i), op);
                 }
@@ -450,6 +480,7 @@ fn quiet_hook() {
 pub const MAX_STEPS: usize = 200_000;
 
 /// let shuttle install its (once-per-process) hook during a trivial execution, then replace it
+#[cfg(feature = "sim")]
 pub fn ensure_hook() {
     if !HOOK_SET.load(Ordering::SeqCst) {
         let r = Arc::new(StdMutex::new(SchedRecord::default()));
@@ -461,6 +492,7 @@ pub fn ensure_hook() {
     }
 }
 
+#[cfg(feature = "sim")]
 pub fn run_case(case: &Arc<Case>, spec: &SchedSpec) -> RunOutput {
     let env = Arc::new(Env {
         case: case.clone(),
@@ -497,4 +529,22 @@ pub fn run_case(case: &Arc<Case>, spec: &SchedSpec) -> RunOutput {
     let log = env.log.lock().map(|g| g.clone()).unwrap_or_else(|p| p.into_inner().clone());
     let rec = rec.lock().unwrap().clone();
     RunOutput { log, rec, verdict }
+}
+
+/// std backend: run the case on real OS threads against the real primitives, in THIS process
+/// (the caller gives every case its own process), and return the recorded history
+#[cfg(not(feature = "sim"))]
+pub fn run_case_std(case: &Arc<Case>) -> Vec<Ev> {
+    quiet_hook();
+    let env = Arc::new(Env {
+        case: case.clone(),
+        log: StdMutex::new(vec![]),
+        hcount: StdMutex::new(vec![]),
+        slots: StdMutex::new(vec![]),
+        shared: StdMutex::new(SharedAsts { asts: vec![], texts: vec![] }),
+    });
+    let e2 = env.clone();
+    let _ = catch_unwind(AssertUnwindSafe(move || e2.main_body()));
+    let log = env.log.lock().map(|g| g.clone()).unwrap_or_else(|p| p.into_inner().clone());
+    log
 }
